@@ -763,6 +763,9 @@ func vfGenHostileSpecs(tier string, seed uint64, race bool) []vfSpec {
 					if mode == "abort" {
 						n = 3
 					}
+					if cx == "unread" && mode == "free" {
+						n = 4 // the probes aimed at complete unread messages live here
+					}
 					for k := 0; k < n; k++ {
 						r := vfNewRand(vfHash(seed, uint64(idx), 0xC03))
 						sp := vfSpec{Prop: "C03", Kind: "hostile", ID: fmt.Sprintf("C03-hostile-%d", idx), Seed: r.Uint64()}
@@ -776,6 +779,7 @@ func vfGenHostileSpecs(tier string, seed uint64, race bool) []vfSpec {
 						if cx == "unread" {
 							// interleaving on, the target's readers paused: complete messages wait unread in its queues
 							sp.A.IL, sp.B.IL = true, true
+							sp.A.RecvBuf, sp.B.RecvBuf = 0, 0 // room for every stream's largest message while nobody reads
 							il = true
 						}
 						for i := 0; i < 3; i++ {
@@ -790,14 +794,14 @@ func vfGenHostileSpecs(tier string, seed uint64, race bool) []vfSpec {
 								sc.Reader = "slow"
 								sc.SizeMode = "small"
 							}
+							if r.Intn(3) == 0 {
+								sc.RelType, sc.RelVal = ReliabilityTypeRexmit, 1
+							}
 							if cx == "unread" {
 								sc.Dir = 1
 								sc.Reader = "pause"
 								sc.NMsgs = 10 + r.Intn(10)
 								sc.RelType, sc.RelVal = 0, 0
-							}
-							if r.Intn(3) == 0 {
-								sc.RelType, sc.RelVal = ReliabilityTypeRexmit, 1
 							}
 							sp.Streams = append(sp.Streams, sc)
 						}
